@@ -40,6 +40,7 @@ import (
 	"os/exec"
 	"path/filepath"
 	"runtime"
+	"runtime/pprof"
 	"sort"
 	"strconv"
 	"strings"
@@ -70,6 +71,8 @@ const (
 
 // ---------------------------------------------------------------------------------------------
 // one monotonic counter for every recorded call
+
+const roundWatchdog = 30 * time.Second // covers the execution of a round only; porcupine has its own 2-minute timeout
 
 var clock atomic.Int64
 
@@ -814,11 +817,14 @@ type violOut struct {
 	Rule    string `json:"rule"`
 	Sig     string `json:"sig"`
 	Desc    string `json:"desc"`
+	Round   int    `json:"round"`
+	Clean   bool   `json:"clean,omitempty"`
 	Witness any    `json:"witness,omitempty"`
 }
 
 type roundOut struct {
 	Start      *int           `json:"start,omitempty"`
+	Hung       bool           `json:"hung,omitempty"`
 	Done       bool           `json:"done,omitempty"`
 	Round      int            `json:"round"`
 	Counters   map[string]int `json:"counters,omitempty"`
@@ -853,9 +859,22 @@ func TestC27Child(t *testing.T) {
 	for i := from; i < to; i++ {
 		ii := i
 		emit(roundOut{Start: &ii, Round: i})
+		// watchdog only: a round takes well under a second; one that does not finish is hung (deadlock in
+		// the code under test or in the harness). Dump the goroutines for the parent and give up on the round.
+		finished := make(chan struct{})
+		go func() {
+			select {
+			case <-finished:
+			case <-time.After(roundWatchdog):
+				fmt.Fprintf(os.Stderr, "C27-ROUND-WATCHDOG round %d did not finish within %v; goroutines:\n", ii, roundWatchdog)
+				pprof.Lookup("goroutine").WriteTo(os.Stderr, 2)
+				emit(roundOut{Hung: true, Round: ii})
+				os.Exit(3)
+			}
+		}()
 		d := runRound(seed, makeCfg(seed, i))
-		o := analyse(seed, d, witnessed)
-		emit(o)
+		close(finished)
+		emit(analyse(seed, d, witnessed))
 	}
 	emit(roundOut{Done: true, Round: -1})
 }
@@ -885,6 +904,7 @@ func TestC27(t *testing.T) {
 	seqs, grams := map[string]bool{}, map[string]bool{}
 	suppressed := map[string]int{}
 	histories := 0
+	var viols []violOut
 	aggregate := func(o roundOut) {
 		mu.Lock()
 		defer mu.Unlock()
@@ -893,9 +913,7 @@ func TestC27(t *testing.T) {
 			run.Count(k, v)
 		}
 		histories += o.Counters["porcupine_histories_checked"]
-		for _, v := range o.Viol {
-			run.Violation(v.Rule, v.Sig, v.Desc, v.Witness)
-		}
+		viols = append(viols, o.Viol...)
 		if o.Nontrivial != "" {
 			run.Nontrivial(o.Nontrivial)
 		}
@@ -932,7 +950,7 @@ func TestC27(t *testing.T) {
 			timedOut := ctx.Err() != nil
 			cancel()
 			lf.Close()
-			done, lastStart, lastDone := false, -1, -1
+			done, lastStart, lastDone, hung := false, -1, -1, false
 			if fh, e := os.Open(out); e == nil {
 				sc := bufio.NewScanner(fh)
 				sc.Buffer(make([]byte, 1<<20), 1<<28)
@@ -944,6 +962,8 @@ func TestC27(t *testing.T) {
 					switch {
 					case o.Done:
 						done = true
+					case o.Hung:
+						hung = true
 					case o.Start != nil:
 						lastStart = *o.Start
 					default:
@@ -964,6 +984,10 @@ func TestC27(t *testing.T) {
 			}
 			mu.Lock()
 			switch {
+			case hung:
+				diag := hangDiagnosis(logf)
+				run.Count("rounds_hung_"+diag, 1)
+				run.Inconclusive(fmt.Sprintf("round %d did not finish within the %v round watchdog (%s); goroutine dump in %s", crashed, roundWatchdog, diag, logf))
 			case timedOut:
 				run.Inconclusive(fmt.Sprintf("child for rounds %d..%d hit the %v watchdog in round %d", from, j.to, watchdog, crashed))
 			case fatalLine != "":
@@ -993,6 +1017,27 @@ func TestC27(t *testing.T) {
 	}
 	close(ch)
 	wg.Wait()
+
+	// violations in a deterministic order; the witness kept per (rule, signature) is the first one, so
+	// prefer a witness that shows the violation on its own, then the lowest round
+	rank := func(v violOut) int {
+		switch {
+		case v.Witness != nil && v.Clean:
+			return 0
+		case v.Witness != nil:
+			return 1
+		}
+		return 2
+	}
+	sort.SliceStable(viols, func(i, j int) bool {
+		if rank(viols[i]) != rank(viols[j]) {
+			return rank(viols[i]) < rank(viols[j])
+		}
+		return viols[i].Round < viols[j].Round
+	})
+	for _, v := range viols {
+		run.Violation(v.Rule, v.Sig, v.Desc, v.Witness)
+	}
 
 	// (g) race detector reports of the children
 	reports := parseRaceLogs(outDir)
@@ -1049,6 +1094,9 @@ func logTail(path string) (tail string, fatalLine string, where string) {
 		if strings.HasPrefix(l, "fatal error: ") || strings.HasPrefix(l, "panic: ") {
 			fi = i
 			fatalLine = strings.TrimSpace(l)
+			if j := strings.Index(fatalLine[1:], "fatal error: "); j >= 0 { // two threads dying at once interleave their lines
+				fatalLine = fatalLine[:j+1]
+			}
 			break
 		}
 	}
@@ -1065,6 +1113,19 @@ func logTail(path string) (tail string, fatalLine string, where string) {
 	}
 	start := max(0, len(lines)-40)
 	return strings.Join(lines[start:], "\n"), "", ""
+}
+
+// hangDiagnosis names the one hang pattern seen so far: UpdateSessionCU takes psm.lock.RLock() and, still
+// holding it, calls readConsumerToPairedWithProjectMap which takes psm.lock.RLock() again; with a writer
+// (UpdateEpoch / registerNewConsumer) queued between the two, sync.RWMutex blocks the second RLock forever.
+func hangDiagnosis(logf string) string {
+	b, _ := os.ReadFile(logf)
+	for _, g := range strings.Split(string(b), "\n\n") {
+		if strings.Contains(g, "readConsumerToPairedWithProjectMap") && strings.Contains(g, "UpdateSessionCU") && strings.Contains(g, "RWMutex).RLock") {
+			return "recursive-RLock-of-psm.lock-in-UpdateSessionCU-behind-a-queued-writer"
+		}
+	}
+	return "unclassified"
 }
 
 func lastLine(s string) string {
